@@ -15,8 +15,8 @@
         `build()` on valid descriptors returns Ok with exactly these maps (the mirrored debug
         assertions on the face / volume count hold), zero counts included: never a panic
     C12_ceil_count_rounding / C12_ceil_count_exact
-        the third descriptor form under ANY monotone rounding of the quotient that fixes the integers
-        (IEEE round-to-nearest division is one): the computed count is ⌈L/l⌉ or ⌈L/l⌉ − 1, and it is
+        the third descriptor form under ANY monotone rounding of the quotient that fixes the two integers
+        ⌈L/l⌉ and ⌈L/l⌉ − 1 (binary64 round-to-nearest for counts up to 2^53: Props/C12c.lean): the computed count is ⌈L/l⌉ or ⌈L/l⌉ − 1, and it is
         ⌈L/l⌉ exactly when the rounded quotient stays above ⌈L/l⌉ − 1 (in particular whenever the
         quotient is representable)
 -/
@@ -252,30 +252,17 @@ theorem ceil_eq_iff (x : Rat) (n : Int) : x.ceil = n ↔ ((n - 1 : Int) : Rat) <
     have := b.mpr h2
     omega
 
-/-- The count of the form `len_per_cell + lens` is `ceil(rnd(L / l))` where `rnd` is the rounding of
-    the division in the coordinate type (`Rat`: the identity; `f64`: IEEE round-to-nearest, which
-    is monotone and fixes every integer below 2^53).  For **any** monotone `rnd` that fixes the
-    integers the computed count is `⌈L/l⌉` or `⌈L/l⌉ − 1`, and it is `⌈L/l⌉` **iff** the rounded
-    quotient stays strictly above `⌈L/l⌉ − 1`; i.e. the only possible error is one cell too few,
-    when `L/l` exceeds an integer by so little that the quotient rounds down onto it. -/
-theorem C12_ceil_count_rounding (rnd : Rat → Rat) (mono : ∀ a b : Rat, a ≤ b → rnd a ≤ rnd b)
-    (fixInt : ∀ n : Int, rnd (n : Rat) = (n : Rat)) (q : Rat) :
-    ((rnd q).ceil = q.ceil ∨ (rnd q).ceil = q.ceil - 1) ∧
-    ((rnd q).ceil = q.ceil ↔ ((q.ceil - 1 : Int) : Rat) < rnd q) ∧
-    ((rnd q).ceil = q.ceil - 1 ↔ rnd q = ((q.ceil - 1 : Int) : Rat)) := by
-  obtain ⟨h1, h2⟩ := (ceil_eq_iff q q.ceil).mp rfl
-  have lo : ((q.ceil - 1 : Int) : Rat) ≤ rnd q := by
-    have := mono _ _ (Rat.le_of_lt h1)
-    rwa [fixInt] at this
-  have hi : rnd q ≤ (q.ceil : Rat) := by
-    have := mono _ _ h2
-    rwa [fixInt] at this
-  have lt2 : ((q.ceil - 1 - 1 : Int) : Rat) < rnd q :=
-    Std.lt_of_lt_of_le (Rat.intCast_lt_intCast.mpr (by omega)) lo
-  have iff1 : (rnd q).ceil = q.ceil ↔ ((q.ceil - 1 : Int) : Rat) < rnd q := by
+/-- core of the rounding argument: a value `r` between `⌈q⌉ − 1` and `⌈q⌉` has ceiling `⌈q⌉` or
+    `⌈q⌉ − 1`, the first iff `r > ⌈q⌉ − 1`, the second iff `r = ⌈q⌉ − 1` -/
+theorem C12_ceil_count_of_bounds (r q : Rat) (lo : ((q.ceil - 1 : Int) : Rat) ≤ r)
+    (hi : r ≤ (q.ceil : Rat)) :
+    (r.ceil = q.ceil ∨ r.ceil = q.ceil - 1) ∧
+    (r.ceil = q.ceil ↔ ((q.ceil - 1 : Int) : Rat) < r) ∧
+    (r.ceil = q.ceil - 1 ↔ r = ((q.ceil - 1 : Int) : Rat)) := by
+  have iff1 : r.ceil = q.ceil ↔ ((q.ceil - 1 : Int) : Rat) < r := by
     rw [ceil_eq_iff]
     exact ⟨fun h => h.1, fun h => ⟨h, hi⟩⟩
-  have iff2 : (rnd q).ceil = q.ceil - 1 ↔ rnd q = ((q.ceil - 1 : Int) : Rat) := by
+  have iff2 : r.ceil = q.ceil - 1 ↔ r = ((q.ceil - 1 : Int) : Rat) := by
     rw [ceil_eq_iff]
     constructor
     · intro h
@@ -284,9 +271,40 @@ theorem C12_ceil_count_rounding (rnd : Rat → Rat) (mono : ∀ a b : Rat, a ≤
       rw [h]
       exact ⟨Rat.intCast_lt_intCast.mpr (by omega), Rat.le_refl⟩
   refine ⟨?_, iff1, iff2⟩
-  by_cases h : ((q.ceil - 1 : Int) : Rat) < rnd q
+  by_cases h : ((q.ceil - 1 : Int) : Rat) < r
   · exact Or.inl (iff1.mpr h)
   · exact Or.inr (iff2.mpr (Rat.le_antisymm (Rat.not_lt.mp h) lo))
+
+/-- The count of the form `len_per_cell + lens` is `ceil(rnd(L / l))` where `rnd` is the rounding of
+    the division in the coordinate type (`Rat`: the identity; `f64`: IEEE round-to-nearest).  For
+    **any** monotone `rnd` that fixes the two integers `⌈q⌉` and `⌈q⌉ − 1` (all the proof uses; an IEEE
+    rounding fixes the integers up to `2^p` only, see `Props/C12c.lean` for the binary64 instance) the
+    computed count is `⌈q⌉` or `⌈q⌉ − 1`, and it is `⌈q⌉` **iff** the rounded quotient stays strictly
+    above `⌈q⌉ − 1`; i.e. the only possible error is one cell too few, when `L/l` exceeds an integer
+    by so little that the quotient rounds down onto it. -/
+theorem C12_ceil_count_rounding (rnd : Rat → Rat) (mono : ∀ a b : Rat, a ≤ b → rnd a ≤ rnd b) (q : Rat)
+    (fixHi : rnd (q.ceil : Rat) = (q.ceil : Rat))
+    (fixLo : rnd ((q.ceil - 1 : Int) : Rat) = ((q.ceil - 1 : Int) : Rat)) :
+    ((rnd q).ceil = q.ceil ∨ (rnd q).ceil = q.ceil - 1) ∧
+    ((rnd q).ceil = q.ceil ↔ ((q.ceil - 1 : Int) : Rat) < rnd q) ∧
+    ((rnd q).ceil = q.ceil - 1 ↔ rnd q = ((q.ceil - 1 : Int) : Rat)) := by
+  obtain ⟨h1, h2⟩ := (ceil_eq_iff q q.ceil).mp rfl
+  have lo : ((q.ceil - 1 : Int) : Rat) ≤ rnd q := by
+    have := mono _ _ (Rat.le_of_lt h1)
+    rwa [fixLo] at this
+  have hi : rnd q ≤ (q.ceil : Rat) := by
+    have := mono _ _ h2
+    rwa [fixHi] at this
+  exact C12_ceil_count_of_bounds (rnd q) q lo hi
+
+/-- corollary for roundings that fix every integer (exact arithmetic; NOT satisfiable by a
+    finite-precision rounding, which moves `2^p + 1`) -/
+theorem C12_ceil_count_rounding_all (rnd : Rat → Rat) (mono : ∀ a b : Rat, a ≤ b → rnd a ≤ rnd b)
+    (fixInt : ∀ n : Int, rnd (n : Rat) = (n : Rat)) (q : Rat) :
+    ((rnd q).ceil = q.ceil ∨ (rnd q).ceil = q.ceil - 1) ∧
+    ((rnd q).ceil = q.ceil ↔ ((q.ceil - 1 : Int) : Rat) < rnd q) ∧
+    ((rnd q).ceil = q.ceil - 1 ↔ rnd q = ((q.ceil - 1 : Int) : Rat)) :=
+  C12_ceil_count_rounding rnd mono q (fixInt _) (fixInt _)
 
 /-- in particular the count is exact whenever the quotient is represented exactly (`rnd q = q`):
     cell length a power of two, total length an exact multiple of the cell length, … -/
@@ -296,7 +314,7 @@ theorem C12_ceil_count_exact (rnd : Rat → Rat) {l lp : Rat} (h : rnd (l / lp) 
   rw [h]
 
 example : ((fun q : Rat => q) (7 / 2)).ceil = (7 / 2 : Rat).ceil :=
-  ((C12_ceil_count_rounding (fun q => q) (fun _ _ h => h) (fun _ => rfl) (7 / 2)).2.1).mpr
+  ((C12_ceil_count_rounding (fun q => q) (fun _ _ h => h) (7 / 2) rfl rfl).2.1).mpr
     ((ceil_eq_iff _ _).mp rfl).1
 
 end HC.C12
